@@ -169,6 +169,7 @@ func decScript(b *Sx) Script {
 			if st := p.arg1("stop"); st != nil && st.Atom != "none" {
 				pl.Stop = sxInt(st)
 			}
+			pl.Retry = int(sxInt(p.arg1("retry")))
 			pl.Ret = decBErr(p.arg1("ret"))
 			pl.Prop = sxBool(p.arg1("prop"))
 			pl.Panic = sxBool(p.arg1("panic"))
@@ -218,6 +219,7 @@ func Rerun(line string) (string, error) {
 		if st := x.arg1("stop"); st != nil && st.Atom != "none" {
 			d.Stop = sxInt(st)
 		}
+		d.Retry = int(sxInt(x.arg1("retry")))
 		return RunDr(d).String(), nil
 	}
 	return line, fmt.Errorf("kind %s is not re-runnable (shown as recorded)", x.List[0].Atom)
